@@ -178,7 +178,7 @@ package plush
 //@ ensures restored: c.ctx == old(c.ctx) && (c.curStmt == nil || pay(c.curStmt) != 0)
 //@ errprop tolerate is(e, "*ErrUnknownIdentifier")
 //@ assigns c.ctx, c.curStmt, mapsof("map[string]interface{}"), fresh
-//@ loop 1: invariant c.ctx == old(c.ctx)
+//@ loop 1: invariant cctx(c) && c.ctx == old(c.ctx)
 
 //@ func (c *compiler) evalReturnStatement
 //@ requires node != nil
@@ -201,7 +201,7 @@ package plush
 //@ ensures restored: c.ctx == old(c.ctx) && (c.curStmt == nil || pay(c.curStmt) != 0)
 //@ errprop
 //@ assigns c.ctx, c.curStmt, mapsof("map[string]interface{}"), fresh
-//@ loop 1: invariant c.ctx == old(c.ctx)
+//@ loop 1: invariant cctx(c) && c.ctx == old(c.ctx)
 
 //@ func (c *compiler) evalArrayLiteral
 //@ ensures ufn: is(result, "*userFunction") ==> pay(result) != 0
@@ -210,7 +210,7 @@ package plush
 //@ ensures restored: c.ctx == old(c.ctx) && (c.curStmt == nil || pay(c.curStmt) != 0)
 //@ errprop
 //@ assigns c.ctx, c.curStmt, mapsof("map[string]interface{}"), fresh
-//@ loop 1: invariant c.ctx == old(c.ctx)
+//@ loop 1: invariant cctx(c) && c.ctx == old(c.ctx)
 
 //@ func (c *compiler) evalHashLiteral
 //@ ensures ufn: is(result, "*userFunction") ==> pay(result) != 0
@@ -219,7 +219,7 @@ package plush
 //@ ensures restored: c.ctx == old(c.ctx) && (c.curStmt == nil || pay(c.curStmt) != 0)
 //@ errprop
 //@ assigns c.ctx, c.curStmt, mapsof("map[string]interface{}"), fresh
-//@ loop 1: invariant c.ctx == old(c.ctx)
+//@ loop 1: invariant cctx(c) && c.ctx == old(c.ctx)
 
 //@ pred cctx(c *compiler) = is(c.ctx, "*Context") && pay(c.ctx) != 0 && (c.curStmt == nil || pay(c.curStmt) != 0)
 
@@ -375,6 +375,7 @@ package plush
 //@ assigns h.compiler.ctx, h.compiler.curStmt, mapsof("map[string]interface{}"), fresh
 
 //@ func (h HelperContext) Block
+//@ requires hc: !(is(h.Context, "*Context") && pay(h.Context) == 0)
 //@ requires comp: h.compiler != nil && cctx(h.compiler)
 //@ ensures restored: h.compiler.ctx == old(h.compiler.ctx) && (h.compiler.curStmt == nil || pay(h.compiler.curStmt) != 0)
 //@ ensures empty: err != nil ==> result == ""
